@@ -141,6 +141,10 @@ def c05(payload):
                 w['p1'] = [c * s for c in w['p1']]; w['p2'] = [c * s for c in w['p2']]; w['r'] = w['r'] * s
             scale_taper(s2)
             Fm = _solve(s2); cmp(Fm, 'all dimensions x %.4g written into the coordinates' % s)
+            # the scaled copy reached by a frequency step on the same object (every quantity derived from the wavelength must follow)
+            pre = spec['pre_factor'] if 'pre_factor' in spec else rng.choice([0.5, 2.0, 0.93, 1.07, 10.0, 0.1])
+            mS = gen.build(dict(s2, f=s2['f'] * pre)); mS.compute(); mS.f = s2['f']; mS.compute()
+            cmp(mS, 'all dimensions x %.4g, reached by a frequency step from %.6g MHz on the same object' % (s, s2['f'] * pre))
             r['bad'] = bad; r['cond'] = cond
         except Exception as e:
             r['error'] = exc_info(e)
